@@ -322,14 +322,10 @@ def stepErr (m : M) (v : SVal) (fl : Bool) : Step :=
 
 /-! ### the transition function -/
 
-def step (m : M) : Step :=
-  let m := { m with steps := m.steps + 1 }
-  -- fault injection (C05): a single fault at machine step k, positioned at the current line
-  if m.faultAt = some m.steps then
-    match m.ctrl with
-    | .err .. => .inl { m with faultAt := none }
-    | _ => .inl { m with faultAt := none, ctrl := .err (sv (posPrefix m.line ++ " ?")) true }
-  else
+/-- one transition, fault injection aside.  Neither `stepCore` nor any helper it calls mentions the
+    `faultAt` field (they only copy it along in `{ m with … }` updates); `step` below makes this
+    manifest by running `stepCore` on the machine with the field erased and re-attaching it. -/
+def stepCore (m : M) : Step :=
   match m.ctrl with
   | .expr e env => stepExpr m e env
   | .exprs es env =>
@@ -354,6 +350,23 @@ def step (m : M) : Step :=
   | .call f args => stepCall m f args
   | .assignTargets done rest es env => stepAssignTargets m done rest es env
   | .stores pending env => stepStores m pending env
+
+/-- put the `faultAt` field back after a `stepCore` on the fault-erased machine -/
+def reattachFault (fa : Option Nat) : Step → Step
+  | .inl m => .inl { m with faultAt := fa }
+  | .inr o => .inr o
+
+def step (m : M) : Step :=
+  let m := { m with steps := m.steps + 1 }
+  -- fault injection (C05): a single fault at machine step k, positioned at the current line
+  if m.faultAt = some m.steps then
+    match m.ctrl with
+    | .err .. => .inl { m with faultAt := none }
+    | _ => .inl { m with faultAt := none, ctrl := .err (sv (posPrefix m.line ++ " ?")) true }
+  else
+    -- no helper reads or writes `faultAt`, so this is `stepCore m` (the former direct definition);
+    -- written this way so that Proofs/Sem.lean `fault_agrees_before` is a short induction
+    reattachFault m.faultAt (stepCore { m with faultAt := none })
 
 def run : Nat → M → M × Outcome
   | 0, m => (m, .outOfFuel)
